@@ -144,6 +144,15 @@ def firstCall (g : Grammar T N) (st : N → TE T) (memo : FirstMemo T N) (s : Li
     let r := firstWalk g st s []
     (if r.2 then .panic else .ok r.1, memo ++ [(s, r.1)])
 
+/-- a history of calls of ONE closure (one memo table): the answers in order, and the table afterwards -/
+def firstCalls (g : Grammar T N) (st : N → TE T) :
+    FirstMemo T N → List (List (Sym T N)) → List (Outcome (TE T)) × FirstMemo T N
+  | memo, [] => ([], memo)
+  | memo, s :: rest =>
+    let r := firstCall g st memo s
+    let rs := firstCalls g st r.2 rest
+    (r.1 :: rs.1, rs.2)
+
 /-! ## `Parse` with a failing lexer and failing callbacks
 
 The lexer hands out the tokens of the input, then `io.EOF`.  `lexFail = some l`: its call number `l` (counting
